@@ -55,7 +55,7 @@ def scratch_root():
     return d
 
 
-def build_unit(name, cpp, roots, defines=(), sessions=2, cuts=(), inline_all=False, extra_c=(), cdefs=(), all_hooks=False, coroutines=(), nested=False):
+def build_unit(name, cpp, roots, defines=(), sessions=2, cuts=(), inline_all=False, extra_c=(), cdefs=(), all_hooks=False, coroutines=(), nested=False, intruder=False, new_hints=None):
     """compile harness `cpp` against /repo/include, translate, goto-cc.  returns dict(dir, c, gb, info)"""
     wd = os.path.join(scratch_root(), name)
     os.makedirs(wd, exist_ok=True)
@@ -73,12 +73,12 @@ def build_unit(name, cpp, roots, defines=(), sessions=2, cuts=(), inline_all=Fal
     rc, out, err, dt = sh(cmd, timeout=600)
     if rc != 0:
         raise BuildError('clang++ failed on %s:\n%s' % (cpp, err[-3000:]))
-    rc, out, err, dt = sh(['opt-14', '-S', '-passes=function(lowerinvoke,simplifycfg),globaldce', ll, '-o', lll], timeout=600)
+    rc, out, err, dt = sh(['opt-14', '-S', '-passes=' + os.environ.get('YK_OPT_PASSES', 'function(lowerinvoke,simplifycfg),globaldce'), ll, '-o', lll], timeout=600)
     if rc != 0:
         raise BuildError('opt failed:\n' + err[-3000:])
     text = open(lll).read()
     try:
-        src, info = ll2c.translate(text, roots, dict(cuts=list(cuts) + DEFAULT_CUTS, all_hooks=all_hooks, coroutines=list(coroutines), nested_coroutines=nested))
+        src, info = ll2c.translate(text, roots, dict(cuts=list(cuts) + DEFAULT_CUTS, all_hooks=all_hooks, coroutines=list(coroutines), nested_coroutines=nested, intruder=intruder, new_hints=new_hints or {}))
     except Exception as e:
         raise BuildError('ll2c failed on %s: %r' % (cpp, e))
     if info['missing']:
@@ -92,11 +92,18 @@ def build_unit(name, cpp, roots, defines=(), sessions=2, cuts=(), inline_all=Fal
     info['ll_sha256'] = hashlib.sha256(text.encode()).hexdigest()
     info['ll_lines'] = text.count('\n')
     info['c_lines'] = src.count('\n')
-    cd = ['-D' + d for d in cdefs] + (['-DYK_HAVE_SI_VTABLE'] if pre else []) + (['-DYK_SEQ', '-DYK_NT=%d' % len(coroutines)] if coroutines else [])
-    cmd = ['goto-cc', '-o', gb, cfile, os.path.join(VERIF, 'rt', 'rt.c')] + list(extra_c) + ['-I', os.path.join(VERIF, 'rt'), '-DYK_CBMC'] + cd
-    rc, out, err, dt = sh(cmd, timeout=600)
+    cd = ['-D' + d for d in cdefs] + (['-DYK_HAVE_SI_VTABLE'] if pre else []) + (['-DYK_SEQ', '-DYK_NT=%d' % len(coroutines)] if coroutines else []) + (['-DYK_INTRUDER'] if intruder else [])
+    for f_ in os.listdir(wd):
+        if f_.startswith('win_') and f_.endswith('.gb'):
+            os.remove(os.path.join(wd, f_))
+    uo = os.path.join(wd, 'unit.o')
+    rc, out, err, dt = sh(['goto-cc', '-c', '-o', uo, cfile, '-I', os.path.join(VERIF, 'rt'), '-DYK_CBMC'] + cd, timeout=600)
     if rc != 0:
         raise BuildError('goto-cc failed:\n' + (out + err)[-3000:])
+    link = [uo, os.path.join(VERIF, 'rt', 'rt.c')] + list(extra_c) + ['-I', os.path.join(VERIF, 'rt'), '-DYK_CBMC'] + cd
+    rc, out, err, dt = sh(['goto-cc', '-o', gb] + link, timeout=600)
+    if rc != 0:
+        raise BuildError('goto-cc (link) failed:\n' + (out + err)[-3000:])
     info['build_s'] = round(time.time() - t0, 2)
     # loop ids
     rc, out, err, dt = sh(['cbmc', gb, '--show-loops', '--json-ui'], timeout=300)
@@ -116,7 +123,7 @@ def build_unit(name, cpp, roots, defines=(), sessions=2, cuts=(), inline_all=Fal
             loopkinds[lname] = bykey[k]
         else:
             loopkinds[lname] = 'rt'
-    return dict(dir=wd, c=cfile, gb=gb, info=info, loopkinds=loopkinds, name=name, cpp=cpp)
+    return dict(dir=wd, c=cfile, gb=gb, info=info, loopkinds=loopkinds, name=name, cpp=cpp, link=link)
 
 
 def parse_cbmc_json(out):
@@ -163,6 +170,7 @@ def trace_inputs(trace):
     nin = 0
     sch, ln, fin = {}, {}, {}
     nctx = 0
+    fire = None
 
     def val(st):
         v = st.get('value', {})
@@ -178,6 +186,8 @@ def trace_inputs(trace):
         m = re.fullmatch(r'(yk_in|yk_sched|yk_ctx_len|yk_ctx_fin)\[(\d+)l*\]', lhs)
         if m:
             {'yk_in': ins, 'yk_sched': sch, 'yk_ctx_len': ln, 'yk_ctx_fin': fin}[m.group(1)][int(m.group(2))] = val(st)
+        elif lhs == 'yk_fired_hookno':
+            fire = val(st)
         elif lhs == 'yk_nin':
             nin = val(st)
         elif lhs == 'yk_nctx':
@@ -186,13 +196,28 @@ def trace_inputs(trace):
     out = [ins.get(i, 0) for i in range(n)]
     for c in range(nctx):
         out.append(['S', sch.get(c, 0), ln.get(c, 0), fin.get(c, 0)])
+    if fire:
+        out.append(['F', fire, 0, 0])    # intruder mode: the other thread ran inside A's fire-th LOAD/STORE hook
     return out
 
 
+def window_binary(unit, window):
+    """goto binary of `unit` with voluntary pre-emption restricted to the hook sites window=(lo,hi) (kind S case split)"""
+    lo, hi = window[0], window[1]
+    visit = window[2] if len(window) > 2 else 0
+    gb = os.path.join(unit['dir'], 'win_%d_%d_%d.gb' % (lo, hi, visit))
+    if not os.path.exists(gb):
+        rc, out, err, dt = sh(['goto-cc', '-o', gb] + unit['link'] + ['-DYK_WIN_LO=%du' % lo, '-DYK_WIN_HI=%du' % hi, '-DYK_WIN_VISIT=%d' % visit], timeout=600)
+        if rc != 0:
+            raise BuildError('goto-cc (window link) failed:\n' + (out + err)[-2000:])
+    return gb
+
+
 def run_harness(unit, fn, tier='quick', timeout=300, mem_gb=24, default_data=4, recursion=1, tags=(), const_bound=17, sync_bound=2,
-                unwind_overrides=None, max_refine=6, extra_flags=(), checks=False, solver=('--external-sat-solver', 'kissat')):
+                unwind_overrides=None, max_refine=6, extra_flags=(), checks=False, solver=('--external-sat-solver', 'kissat'), window=None,
+                witness=True):
     """one CBMC query (with unwinding-bound refinement).  returns result dict"""
-    gb = unit['gb']
+    gb = unit['gb'] if window is None else window_binary(unit, window)
     us = {}
     cfn = 'f_' + fn
     for lname, kind in unit['loopkinds'].items():
@@ -320,7 +345,7 @@ def run_harness(unit, fn, tier='quick', timeout=300, mem_gb=24, default_data=4, 
     # ---- query B: every reachability witness must FAIL (i.e. be reachable)
     reach_ok, reach_missing, samples = [], [], []
     fast_done = False
-    if reach:
+    if reach and witness:
         # B (fast path): all witnesses in ONE incremental run of CBMC's built-in solver, unsliced, with traces.  The witness
         # queries are satisfiable and easy; with the external solver CBMC re-solves from scratch per failing property.
         res, why = query(reach, True, slice_ok=False, use_solver=False, tmo=max(60, timeout // 3))
@@ -338,7 +363,7 @@ def run_harness(unit, fn, tier='quick', timeout=300, mem_gb=24, default_data=4, 
                     reach_missing.append(d)
         else:
             log.append('witness fast path not conclusive (%s): falling back to per-property queries' % (why or 'unwinding'))
-    if reach and not fast_done:
+    if reach and witness and not fast_done:
         # B1: reachability of every witness (sliced, no trace)
         for rounds in range(max_refine + 1):
             res, why = query(reach, False)
@@ -369,7 +394,7 @@ def run_harness(unit, fn, tier='quick', timeout=300, mem_gb=24, default_data=4, 
         why = 'unwinding bound too small: ' + ','.join(unwind_fail)
     if failed:
         status = 'fail'
-    elif reach_missing or not reach_ok:
+    elif witness and (reach_missing or not reach_ok):
         if status == 'pass':
             status = 'vacuous'
             why = 'witness not reachable: ' + ','.join(reach_missing or ['(no reach marker)'])
